@@ -375,7 +375,12 @@ def preRetSemWait (s : St) (t sm : Nat) (r e : Int) : Option String :=
     let okErr : Bool := match x.op with
       | .semwait _ _ to _ => okDeadline to x.callAt s.now r e
       | _ => true
-    if !okErr then some "semaphore: ETIMEDOUT before the deadline" else none
+    if !okErr then some "semaphore: ETIMEDOUT before the deadline"
+    else match x.op with
+      | .semwait _ _ _ true =>
+        -- an interruptible wait by a thread that was shut down before the call is cut short by the 10 ms bound
+        if x.shutAtCall ∧ ¬ (s.now ≤ x.callAt + 10000) then some "a shut-down thread blocked for more than 10 ms in a semaphore wait" else none
+      | _ => none
 
 -- condition variable
 /-- `waitq_translate_errno`: what `wait()` reports for what the underlying sleep returned -/
